@@ -278,7 +278,7 @@ def run_check(prop_id, tier):
         "input_distribution": out.dist,
         "explanation": getattr(mod, "EXPLANATION", ""),
         "coq_gate_s": gate["wall_s"],
-        "extraction_crosscheck": xc if xc is not None else "not sampled for this property (done for C01-C03, C05-C07, C11-C17)",
+        "extraction_crosscheck": xc if xc is not None else "not sampled for this property (done for C01-C03, C05-C08, C11-C17)",
         "model_binary": gate.get("model_binary", "not checked (the Coq build failed)"),
         "print_assumptions_outputs": gate.get("print_assumptions", 0),
         "coqchk": gate.get("coqchk", "not run in this tier (thorough only)"),
